@@ -411,6 +411,14 @@ def call(F, fname, *a, **kw):
             if verdict == "stale":
                 F.add("stale-state", None, dict(detail, func=fname))
                 raise Abort()
+        if _S["n_" + fname] % 4 == 2:
+            # the same call with the documented parameter names, written in the opposite order
+            verdict, detail = history.keyword_check(_S["orig"].get(fname) or getattr(_S["g"], fname), a, kw, out)
+            hk = "keywords.%s.%s" % (verdict.replace("/", ""), fname)
+            _S.setdefault("hist", {})[hk] = _S.setdefault("hist", {}).get(hk, 0) + 1
+            if verdict in ("differs", "raises"):
+                F.add("keyword-call-differs", None, dict(detail, func=fname))
+                raise Abort()
         return out
     except Breach as b:
         F.add(b.key, None, dict(b.detail, inside=fname), case=b.case)
